@@ -104,7 +104,11 @@ class MemPerDocWriter(base.PerDocWriterWithColumns):
             self._lengths[fieldname] = length
 
     def add_vector_items(self, fieldname, fieldobj, items):
-        self._vectors[fieldname] = tuple(items)
+        items = tuple(items)
+        # Like the on-disk codec, don't record a vector for a field value that
+        # produced no terms (vector() can't unzip an empty item list)
+        if items:
+            self._vectors[fieldname] = items
 
     def finish_doc(self):
         with self._segment._lock:
